@@ -148,6 +148,19 @@ M = [
             return is;
         }
 """),
+ ('N10 Experience reader clears the stream after a failed timesteps extraction ("lenient")', 'src/MDP/IO.cpp',
+  """        if (!(is >> e.timesteps_))
+            AI_LOGGER(AI_SEVERITY_ERROR, "Could not read Experience timesteps.");
+""", """        if (!(is >> e.timesteps_)) {
+            AI_LOGGER(AI_SEVERITY_ERROR, "Could not read Experience timesteps.");
+            is.clear();
+        }
+"""),
+ ('N11 POMDP::Policy writer streams the action in the caller-independent way but forgets the values (precision kept, std::fixed forced)', 'src/POMDP/IO.cpp',
+  """        const auto oldPrecision = os.precision(std::numeric_limits<double>::max_digits10);
+""", """        const auto oldPrecision = os.precision(std::numeric_limits<double>::max_digits10);
+        os << std::fixed;
+"""),
  ('H1 harmless: Matrix2D writer uses setprecision(17) through a manipulator', 'src/Utils/IO.cpp',
   """    std::ostream & write(std::ostream & os, const Matrix2D & m) {
         const auto oldPrecision = os.precision(std::numeric_limits<double>::max_digits10);
